@@ -13,19 +13,26 @@ from .common import frac_str
 RULE = ('exhaustive: all vertex lists of length 0..4 over the 3x2 integer grid x tolerances {1/2, 1, 3/2, 3} (1 and 3/2 hit '
         'exact equalities in all three regions); random Fraction lists of length 0..12 built from features (repeated points, '
         'collinear runs, zero-length closing segment, reversals, vertices projecting beyond either segment end) with '
-        'tolerances incl. 0, negatives and exact boundary values; float stream (random doubles, near-collinear runs). '
+        'tolerances incl. 0, negatives and exact boundary values; float stream (random doubles, near-collinear runs) and '
+        'large-magnitude float stream (chord/tolerance up to 1e12, translations up to 1e12*tol, sharp reversals overshooting '
+        'either chord end by about the tolerance), judged against exact Fractions of the float inputs. '
         'non-trivial = at least one predicate evaluation; distinct by (vertex list, tolerance)')
 TRUSTED = ['harness oracle dist2() (clamped projection in exact Fractions, independent of the three-region code)',
            'modelled not verified: Python list slicing / slice deletion semantics as List.take/drop',
            'binary64 arithmetic of the real code is outside the model (model = exact rationals); float runs are judged by '
-           'the exact oracle with relative margin 1e-9 (measured: see notes)']
+           'the exact oracle with relative margin max(1e-9, 16*2^-53*D/tol) (measured: see notes)']
 ASSUMPTIONS = ['vertices are 2-sequences of finite numbers held in a Python list; tolerance is a finite number',
                'predicate/reference agreement is claimed for tolerance >= 0 (points_in_tolerance squares the tolerance; '
                'supersample never calls it with tolerance <= 0) and for at least 3 points (both functions assert that)',
-               'float inputs: |coordinates| <= 1e6, tolerance >= 1e-6 (no overflow/underflow of squares)']
+               'float inputs: extent D of the vertex list <= 1e12 * tolerance, |coordinates| <= 1e13 * tolerance, tolerance >= 1e-6 '
+               '(no overflow/underflow of squares); float decisions are required to be exact only outside the relative band '
+               'max(1e-9, 16 * 2^-53 * D / tolerance) around the tolerance (measured on 4.6e5 cases: unchanged code flips only '
+               'within 1.27 * 2^-53 * D / tol; |max_dist_from_n_points - exact| <= 3.3 * 2^-53 * D)']
 STAGED = []
 
 REL = 1e-9
+U53 = 2.0 ** -53
+KBAND = 16.0
 
 
 class Vtx(tuple):
@@ -124,15 +131,28 @@ def exhaustive():
 
 
 # ------------------------------------------------------------------------------------------ oracle
-def check_supersample(ctx, pu, pts, tol, margin, tag, model_ids=None):
-    """run the real supersample on fresh tuple objects; judge against the statement; returns surviving indices"""
+def check_supersample(ctx, pu, pts, tol, margin, tag, again=True):
+    """run the real supersample on fresh vertex objects and judge the call against the statement; then call it a
+    second time on the SAME (already reduced) list object and judge that call too.  Returns the indices surviving
+    the first call."""
     objs = [Vtx(p) for p in pts]                        # distinct objects even when coordinates coincide
-    ident = {id(o): i for i, o in enumerate(objs)}
     work = list(objs)
     inp = {'fn': 'supersample', 'stream': tag, 'vertices': [[str(c) if isinstance(c, F) else repr(c) for c in p] for p in pts],
            'tolerance': str(tol) if isinstance(tol, F) else repr(tol)}
+    idx = _ss_call(ctx, pu, objs, work, tol, margin, inp)
+    if again and idx is not None and len(idx) >= 3 and not ctx.violations:
+        before = list(work)
+        inp2 = dict(inp, vertices=[inp['vertices'][i] for i in idx], sequence='second call on the same list object')
+        _ss_call(ctx, pu, before, work, tol, margin, inp2)
+    return idx
+
+
+def _ss_call(ctx, pu, objs, work, tol, margin, inp):
+    """one call `supersample(work, tol)` where `work` holds exactly the objects `objs` before the call"""
+    ident = {id(o): i for i, o in enumerate(objs)}
+    pts = [tuple(o) for o in objs]
     try:
-        ret = pu.supersample(work, tol)
+        pu.supersample(work, tol)
     except Exception as ex:
         ctx.violate('supersample raised ' + type(ex).__name__, inp, repr(ex), 'the list is reduced in place')
         return None
@@ -165,27 +185,87 @@ def check_supersample(ctx, pu, pts, tol, margin, tag, model_ids=None):
     return idx
 
 
-def float_case(ctx, pu, pts, tol, fstats):
-    """one binary64 case: predicate vs reference (outside the REL band) and supersample judged by the exact oracle"""
+def bbox_diag(pts):
+    xs = [p[0] for p in pts]
+    ys = [p[1] for p in pts]
+    return math.hypot(max(xs) - min(xs), max(ys) - min(ys))
+
+
+def float_band(pts, tol):
+    """relative band around the tolerance inside which a binary64 decision may differ from the exact one:
+    the cross product / dot products of the real code carry an absolute error ~ u * (extent of the points), i.e.
+    ~ u * D / tol relative to the tolerance.  Measured on 4.6 x 10^5 cases with D/tol up to 1e12 on the unchanged
+    code: decisions flip only within 1.27 * u * D / tol, |max_dist_from_n_points - exact| <= 3.3 * u * D."""
+    return max(REL, KBAND * U53 * bbox_diag(pts) / tol)
+
+
+def float_case(ctx, pu, pts, tol, fstats, path='float'):
+    """one binary64 case: predicate vs reference and vs the exact maximum (outside the band), supersample judged by
+    the exact oracle on the Fractions of the float inputs"""
     key = ('f', tuple(pts), tol)
-    ctx.count(key, 'float', True)
+    ctx.count(key, path, True)
     inp = {'fn': 'points_in_tolerance', 'stream': 'float', 'vertices': [[repr(a), repr(b)] for a, b in pts], 'tolerance': repr(tol)}
+    band = float_band(pts, tol)
     try:
         pr = pu.points_in_tolerance(pts, tol)
         ref = pu.max_dist_from_n_points(pts)
     except Exception as ex:
         ctx.violate('points_in_tolerance / max_dist_from_n_points raised ' + type(ex).__name__, inp, repr(ex), 'a value')
         return
-    if abs(ref - tol) <= REL * max(tol, ref):
-        fstats['skipped'] += 1
-    elif bool(pr) != (ref < tol):
-        ctx.violate('points_in_tolerance disagrees with max_dist_from_n_points', inp, str(pr),
-                    f'{ref < tol} (reference maximum {ref!r} vs tolerance {tol!r})')
     ex_pts = [(F(a), F(b)) for a, b in pts]
-    exact = math.sqrt(max(dist2(p, ex_pts[0], ex_pts[-1]) for p in ex_pts[1:-1]))
+    d2 = max(dist2(p, ex_pts[0], ex_pts[-1]) for p in ex_pts[1:-1])
+    exact = math.sqrt(d2)
+    if abs(exact - tol) > band * tol and abs(ref - tol) > band * tol:
+        if bool(pr) != (ref < tol):
+            ctx.violate('points_in_tolerance disagrees with max_dist_from_n_points', inp, str(pr),
+                        f'{ref < tol} (reference maximum {ref!r} vs tolerance {tol!r})')
+    else:
+        fstats['skipped'] += 1
+    # against exact arithmetic on the float inputs
+    lo, hi = (F(tol) * (1 - F(band))) ** 2, (F(tol) * (1 + F(band))) ** 2
+    if (pr and not d2 < hi) or (not pr and d2 < lo):
+        ctx.violate('points_in_tolerance disagrees with the exact maximum distance (beyond the float band)', inp, str(pr),
+                    f'{d2 < F(tol) ** 2} (exact maximum distance {exact!r} vs tolerance {tol!r}, relative band {band:.3e})')
+    if pr != (d2 < F(tol) ** 2):
+        fstats['flip'] = max(fstats['flip'], abs(exact - tol) / tol / (U53 * bbox_diag(pts) / tol))
     if exact > 0:
         fstats['worst'] = max(fstats['worst'], abs(ref - exact) / max(exact, tol))
-    check_supersample(ctx, pu, pts, tol, REL, 'float')
+        fstats['worst_uD'] = max(fstats['worst_uD'], abs(ref - exact) / (U53 * bbox_diag(pts)) if bbox_diag(pts) > 0 else 0.0)
+    check_supersample(ctx, pu, pts, tol, band, 'float')
+
+
+def gen_float_large(rng):
+    """chord much longer than the tolerance (ratio up to 1e12), optionally translated far from the origin; interior
+    vertices are sharp reversals overshooting either chord end, or lie along the chord, at perpendicular offsets
+    around the tolerance"""
+    tol = rng.choice([1.0, 2.0, 0.5, 3.0, rng.uniform(0.1, 10)])
+    L = tol * 10.0 ** rng.uniform(0, 12)
+    if rng.random() < 0.35:
+        ux, uy = rng.choice([(1.0, 0.0), (0.0, 1.0), (-1.0, 0.0), (0.0, -1.0), (0.6, 0.8), (-0.8, 0.6)])
+        L = float(round(L))
+    else:
+        ang = rng.uniform(0, 2 * math.pi)
+        ux, uy = math.cos(ang), math.sin(ang)
+    off = rng.choice([0.0, 0.0, 1.0]) * 10.0 ** rng.uniform(3, 12) * tol
+    x0, y0 = off * rng.choice([-1, 1]), off * rng.choice([-1, 0, 1])
+    mid = []
+    for _ in range(rng.randint(1, 4)):
+        k = rng.random()
+        perp = tol * rng.choice([0.0, 0.5, 0.99, 1.0, 1.01, 1.5, 3.0, rng.uniform(0, 3)]) * rng.choice([-1, 1])
+        if k < 0.3:      # overshoots the far end
+            s = L + tol * rng.choice([0.0, 0.5, 1.0, 2.0, rng.uniform(0, 3)])
+        elif k < 0.6:    # doubles back behind the start
+            s = -tol * rng.choice([0.0, 0.5, 1.0, 2.0, rng.uniform(0, 3)])
+        elif k < 0.7:
+            s = L * rng.uniform(1, 3)
+        else:
+            s = L * rng.uniform(0, 1)
+        mid.append((x0 + s * ux - perp * uy, y0 + s * uy + perp * ux))
+    pts = [(x0, y0)] + mid + [(x0 + L * ux, y0 + L * uy)]
+    # sometimes embed in a longer path
+    if rng.random() < 0.3:
+        pts = [(x0 - 5 * tol, y0 + tol)] + pts + [(pts[-1][0], pts[-1][1] - 50 * tol)]
+    return pts, tol
 
 
 def run(ctx):
@@ -287,7 +367,12 @@ def run(ctx):
                         f'{ref < tol} (reference maximum {ref!r} vs tolerance {tol})')
 
     # ---------------- float stream (implementation + oracle only; the model is exact)
-    fstats = {'worst': 0.0, 'skipped': 0}
+    fstats = {'worst': 0.0, 'skipped': 0, 'flip': 0.0, 'worst_uD': 0.0}
+    float_case(ctx, pu, [(0.0, 0.0), (1000000001.0, 3.0), (1000000000.0, 0.0)], 2.0, fstats, 'float:large')
+    float_case(ctx, pu, [(0.0, 0.0), (-1000000000.0, 3.0), (1.0, 0.0)], 2.0, fstats, 'float:large')
+    for _ in range(ctx.n(6000)):
+        pts, tol = gen_float_large(rng)
+        float_case(ctx, pu, pts, tol, fstats, 'float:large')
     for pts, tol in replay_float:
         float_case(ctx, pu, pts, tol, fstats)
     for _ in range(ctx.n(10000)):
@@ -311,4 +396,120 @@ def run(ctx):
             pts[-1] = pts[0]
         float_case(ctx, pu, pts, tol, fstats)
     ctx.notes.append(f"float stream: max relative error of max_dist_from_n_points vs exact = {fstats['worst']:.3e}; "
-                     f"{fstats['skipped']} cases within {REL} relative of the tolerance skipped for the predicate/reference comparison")
+                     f"{fstats['skipped']} cases inside the band max({REL}, {KBAND}*u*D/tol) skipped for the predicate/reference comparison; "
+                     f"in units of u*D (D = extent of the vertex list): worst |reference - exact| = {fstats['worst_uD']:.3f}, "
+                     f"worst distance-from-tolerance of a flipped decision = {fstats['flip']:.3f} (band constant {KBAND})")
+
+    # =================================================================================================
+    # ---- the SOURCE-REGENERATED code (translator extension) ------------------------------------------
+    # Gen.points_in_tolerance (lean/Plotink/Gen/points_in_tolerance.lean, regenerated from plot_utils.py on every
+    # run; the definition the C09_gen_* theorems are about) and Gen.supersample (translated, validated here only: the
+    # in-place deletion becomes "return (None, new list)", both `while` loops run on fuel 2*len+5) against the real
+    # functions:
+    #   exact - Rounding.exact on the Fraction cases above (a `flt` under identity rounding is an exact rational);
+    #   ieee  - Rounding.ieee on double cases: the boolean must be the one CPython computes (every intermediate
+    #           double is modelled bit for bit; the only observable is the verdict).  Rounding.ieee has an unbounded
+    #           exponent, so only inputs that are 0 or of magnitude in [1e-30, 1e30] are compared.
+    gen_stream(ctx, pu, cases)
+
+
+GEN_FUNCTIONS = ['points_in_tolerance', 'supersample']
+TRUSTED = TRUSTED + ['Gen.points_in_tolerance is regenerated from plot_utils.py on every run and proved equal to the hand model in '
+                     'exact arithmetic (C09_gen_bridge); Gen.supersample is regenerated and validated only (no bridge theorem); '
+                     'not verified, validated by the generated-code stream of this run: the translator (for/while loops, slices, '
+                     'in-place slice deletion as rebinding) and the Py.Val library, Rounding.ieee as binary64']
+
+
+def _gv(v):
+    if isinstance(v, int) and not isinstance(v, bool):
+        return str(v)
+    return 'f' + frac_str(F(v))
+
+
+def _gpts(pts):
+    return '[' + ','.join('[' + ','.join(_gv(c) for c in p) + ']' for p in pts) + ']'
+
+
+def _float_lists(rng, count):
+    """double vertex lists: near-collinear runs with offsets around the tolerance, random clouds, closed polygons,
+    repeated points, points at exactly representable offsets (ties in `>=`)"""
+    for _ in range(count):
+        n = rng.randint(3, 9)
+        scale = 10.0 ** rng.randint(-3, 5)
+        k = rng.random()
+        if k < 0.45:
+            tol = scale * rng.choice([0.001, 0.01, 0.1])
+            ang = rng.uniform(0, math.pi)
+            ux, uy = math.cos(ang), math.sin(ang)
+            x0, y0 = rng.uniform(-scale, scale), rng.uniform(-scale, scale)
+            pts, s = [], 0.0
+            for _k in range(n):
+                s += rng.uniform(-0.2, 1.0) * scale / 4
+                off = rng.choice([0.0, rng.uniform(-2, 2) * tol, tol, -tol, tol * (1 + 1e-12)])
+                pts.append((x0 + s * ux - off * uy, y0 + s * uy + off * ux))
+        elif k < 0.7:
+            # dyadic coordinates: exact arithmetic in doubles, so equalities in the three `>=` tests really occur
+            tol = rng.choice([0.5, 1.0, 1.5, 2.0, 0.25])
+            pts = [(rng.randint(-8, 8) / 2, rng.randint(-8, 8) / 4) for _k in range(n)]
+        else:
+            tol = scale * rng.uniform(0.01, 1.5)
+            pts = [(rng.uniform(-scale, scale), rng.uniform(-scale, scale)) for _k in range(n)]
+        z = rng.random()
+        if z < 0.15:
+            pts[-1] = pts[0]
+        elif z < 0.25:
+            pts[rng.randrange(1, n)] = pts[rng.randrange(0, n - 1)]
+        yield pts, tol
+
+
+def gen_stream(ctx, pu, cases):
+    if not ctx.driver:
+        ctx.notes.append('generated-code stream skipped: no driver')
+        return
+    import time
+    t_start = time.time()
+    rng = ctx.rng
+    jobs = [('exact', [(F(a), F(b)) for a, b in pts], F(tol)) for pts, tol in cases]
+    for pts, tol in _float_lists(rng, ctx.n(6000)):
+        if all(v == 0 or 1e-30 <= abs(v) <= 1e30 for p in pts for v in p) and 1e-30 <= abs(tol) <= 1e30:
+            jobs.append(('ieee', pts, tol))
+    lines = []
+    for kind, pts, tol in jobs:
+        dps = 'x15' if kind == 'exact' else '15'
+        lines.append(f"gen points_in_tolerance {dps} {_gpts(pts)} {_gv(tol)}")
+        lines.append(f"gen supersample {dps} {2 * len(pts) + 5} {_gpts(pts)} {_gv(tol)}")
+    outs = ctx.driver.batch(lines)
+    n = {'exact': 0, 'ieee': 0}
+    bad = {'exact': 0, 'ieee': 0}
+    bad_ss = {'exact': 0, 'ieee': 0}
+    for k, (kind, pts, tol) in enumerate(jobs):
+        g, g_ss = outs[2 * k], outs[2 * k + 1]
+        try:
+            r = pu.points_in_tolerance(pts, tol)
+            want = 'True' if r is True else 'False' if r is False else repr(r)
+        except AssertionError:
+            want = 'ERR'
+        except Exception as ex:
+            want = 'RAISE ' + type(ex).__name__
+        n[kind] += 1
+        ctx.count(('gen', kind, tuple(pts), tol), f'gen {kind}', False)
+        inp = {'gen': kind, 'vertices': [[_gv(c) for c in p] for p in pts], 'tolerance': _gv(tol)}
+        if g != want and not (want.startswith('RAISE') and g == 'ERR'):
+            bad[kind] += 1
+            ctx.disagree(f'Gen.points_in_tolerance (Rounding.{kind}) vs plot_utils.points_in_tolerance',
+                         {'fn': 'points_in_tolerance', **inp}, want, g)
+        work = [tuple(p) for p in pts]
+        try:
+            ret = pu.supersample(work, tol)
+            want_ss = '(' + ('None' if ret is None else repr(ret)) + ' (' + \
+                ' '.join('(' + ' '.join(_gv(c) for c in p) + ')' for p in work) + '))'
+        except Exception as ex:
+            want_ss = 'RAISE ' + type(ex).__name__
+        if g_ss != want_ss and not (want_ss.startswith('RAISE') and 'ERR' in g_ss):
+            bad_ss[kind] += 1
+            ctx.disagree(f'Gen.supersample (Rounding.{kind}) vs plot_utils.supersample', {'fn': 'supersample', **inp},
+                         want_ss, g_ss)
+    ctx.notes.append(f"generated-code stream: Gen.points_in_tolerance and Gen.supersample vs the real functions: {n['exact']} Fraction "
+                     f"cases under Rounding.exact ({bad['exact']} / {bad_ss['exact']} differ), {n['ieee']} double cases under "
+                     f"Rounding.ieee, surviving vertex lists compared bit for bit ({bad['ieee']} / {bad_ss['ieee']} differ); "
+                     f"{time.time() - t_start:.1f}s")
